@@ -221,6 +221,9 @@ class Interp:
         # indeterminates known to be strictly increasing in this configuration (a finite set of
         # orderings is enumerated by the caller): decides min / max / comparisons among them
         self.chain = []
+        # values of uninterpreted user functions count as non-zero in truth tests (the exactly-zero case must then be
+        # explored by the caller with a literal zero)
+        self.generic_functions = False
         # module-level assignments `name = <expression>` of the analysed module, evaluated on demand
         self.module_globals = dict(module_globals or {})
         self._glob_cache = {}
@@ -280,6 +283,38 @@ class Interp:
             if gen:
                 produced = self._yields.pop()
         return produced if gen else None
+
+    def _record_class(self, node):
+        """A module-level `class X(NamedTuple)` / dataclass with annotated fields only: a record constructor."""
+        import collections
+        bases = {norm(b).split(".")[-1] for b in node.bases}
+        decos = {norm(d).split("(")[0].split(".")[-1] for d in node.decorator_list}
+        fields, defaults = [], {}
+        for st in node.body:
+            if isinstance(st, ast.AnnAssign) and isinstance(st.target, ast.Name):
+                fields.append(st.target.id)
+                if st.value is not None:
+                    defaults[st.target.id] = self.ev(st.value, {})
+            elif isinstance(st, ast.Expr) and isinstance(st.value, ast.Constant):
+                continue
+            else:
+                raise Undecided(f"class {node.name} has members other than annotated fields")
+        if not fields or not (bases & {"NamedTuple"} or "dataclass" in decos):
+            raise Undecided(f"class {node.name} is not a plain record")
+        nt = collections.namedtuple(node.name, fields, defaults=[defaults[f_] for f_ in fields if f_ in defaults] or None)
+        return nt
+
+    def apply(self, f, args, kw):
+        """Call an evaluated callee (closure, stub, module function, class) with evaluated arguments."""
+        if isinstance(f, (Closure, Cls)):
+            return f(*args, **kw)
+        if isinstance(f, Fn):
+            return f(*args)
+        if isinstance(f, tuple) and f and f[0] == "modfunc":
+            return self.call_def(self.module_funcs[f[1]], list(args), kw, {})
+        if callable(f):
+            return f(*args, **kw)
+        raise Undecided("call of a value that is not a function")
 
     # -- statements
     def block(self, stmts, env):
@@ -415,6 +450,9 @@ class Interp:
             return
         if isinstance(t, ast.Subscript):
             base = self.ev(t.value, env)
+            if isinstance(base, dict):
+                base[self.ev(t.slice, env)] = v
+                return
             idx = self.index(t.slice, env)
             if isinstance(base, np.ndarray):
                 base[idx] = v
@@ -478,10 +516,11 @@ class Interp:
                 raise Undecided("arithmetic on a non-number")
         if isinstance(a, str) and isinstance(b, str) and isinstance(op, ast.Add):
             return a + b
-        if isinstance(a, (bool, np.bool_)):
-            a = int(a)
-        if isinstance(b, (bool, np.bool_)):
-            b = int(b)
+        if not isinstance(op, (ast.BitOr, ast.BitAnd, ast.BitXor)):
+            if isinstance(a, (bool, np.bool_)):
+                a = int(a)
+            if isinstance(b, (bool, np.bool_)):
+                b = int(b)
         if isinstance(a, (list, tuple)) or isinstance(b, (list, tuple)):
             if isinstance(op, ast.Add) and isinstance(a, (list, tuple)) and isinstance(b, type(a)):
                 return a + b
@@ -519,6 +558,27 @@ class Interp:
             return int(a) % int(b)
         if isinstance(op, ast.MatMult) and isinstance(a, np.ndarray) and isinstance(b, np.ndarray):
             return a.dot(b)
+        if isinstance(op, (ast.FloorDiv, ast.Mod)) and (isinstance(a, np.ndarray) or isinstance(b, np.ndarray)):
+            def as_int(v):
+                if isinstance(v, np.ndarray):
+                    flat = [x for x in v.flatten()]
+                    if not all(isinstance(x, (int, np.integer, sp.Integer)) and not isinstance(x, bool) for x in flat):
+                        raise Undecided("floor division of symbolic data")
+                    return np.array([int(x) for x in flat], dtype=int).reshape(v.shape)
+                if isinstance(v, (int, np.integer, sp.Integer)):
+                    return int(v)
+                raise Undecided("floor division of symbolic data")
+            ai, bi = as_int(a), as_int(b)
+            return ai // bi if isinstance(op, ast.FloorDiv) else ai % bi
+        if isinstance(op, (ast.BitOr, ast.BitAnd, ast.BitXor)):
+            def as_bool(v):
+                if isinstance(v, np.ndarray) and v.dtype == bool:
+                    return v
+                if isinstance(v, (bool, np.bool_)):
+                    return bool(v)
+                raise Undecided("bitwise operator on non-boolean data")
+            ab, bb = as_bool(a), as_bool(b)
+            return ab | bb if isinstance(op, ast.BitOr) else ab & bb if isinstance(op, ast.BitAnd) else ab ^ bb
         raise Undecided(f"operator {type(op).__name__}")
 
     def ev(self, e, env):
@@ -534,13 +594,17 @@ class Interp:
             if e.id in self._glob_cache:
                 return self._glob_cache[e.id]
             if e.id in self.module_globals:
-                v = self.ev(self.module_globals[e.id], {})
+                g = self.module_globals[e.id]
+                if isinstance(g, ast.ClassDef):
+                    v = self._record_class(g)
+                else:
+                    v = self.ev(g, {})
                 self._glob_cache[e.id] = v
                 return v
             if e.id == "islice":
                 return ("itertools", "islice")
             if e.id in ("float", "int", "len", "range", "enumerate", "list", "tuple", "min", "max", "isinstance",
-                        "callable", "zip", "Number", "Real", "Integral", "bool", "abs", "reversed", "sum", "dict", "type", "slice", "sorted", "str", "iter", "all", "any"):
+                        "callable", "zip", "Number", "Real", "Integral", "bool", "abs", "reversed", "sum", "dict", "type", "slice", "sorted", "str", "iter", "all", "any", "partial"):
                 return ("builtin", e.id)
             raise Undecided(f"name `{e.id}`")
         if isinstance(e, ast.UnaryOp):
@@ -551,6 +615,10 @@ class Interp:
                 return self.binop(ast.Mult(), -1, v)
             if isinstance(e.op, ast.UAdd):
                 return v
+            if isinstance(e.op, ast.Invert):
+                if isinstance(v, np.ndarray) and v.dtype == bool:
+                    return ~v
+                raise Undecided("~ of non-boolean data")
         if isinstance(e, ast.BinOp):
             return self.binop(e.op, self.ev(e.left, env), self.ev(e.right, env))
         if isinstance(e, ast.BoolOp):
@@ -663,6 +731,8 @@ class Interp:
                     raise Undecided("chained comparison of arrays")
                 la = left if isinstance(left, np.ndarray) else None
                 ra = right if isinstance(right, np.ndarray) else None
+                if la is not None and ra is not None:
+                    la, ra = np.broadcast_arrays(la, ra)
                 shape = (la if la is not None else ra).shape
                 out = np.empty(shape, dtype=bool)
                 for idx in np.ndindex(shape):
@@ -763,6 +833,8 @@ class Interp:
                 return base.T
             if e.attr in ("dot", "copy", "flatten", "ravel", "astype", "sum", "reshape", "tolist"):
                 return ("method", base, e.attr)
+        if isinstance(base, tuple) and hasattr(base, "_fields") and e.attr in base._fields:
+            return getattr(base, e.attr)
         if isinstance(base, sp.Basic) and e.attr in ("evalf", "subs", "expand"):
             return ("method", base, "sympy." + e.attr)
         if isinstance(base, list) and e.attr in ("append", "extend", "insert", "copy", "index", "count"):
@@ -875,7 +947,8 @@ class Interp:
         if name == "range":
             return range(*[self._int(a) for a in args])
         if name == "enumerate":
-            return list(enumerate(list(args[0])))
+            start = self._int(kw.get("start", args[1] if len(args) > 1 else 0))
+            return list(enumerate(list(args[0]), start))
         if name == "reversed":
             return list(reversed(list(args[0])))
         if name == "sorted":
@@ -900,6 +973,9 @@ class Interp:
         if name in ("all", "any"):
             vals = [self.truth(x) for x in (list(args[0].it) if isinstance(args[0], PyIter) else list(args[0]))]
             return all(vals) if name == "all" else any(vals)
+        if name == "partial":
+            fn, pre, prekw = args[0], list(args[1:]), dict(kw)
+            return lambda *a, **k2: self.apply(fn, pre + list(a), {**prekw, **k2})
         if name == "iter" and len(args) == 2:
             fn, sentinel = args
             out = []
@@ -1020,6 +1096,22 @@ class Interp:
             if v.size == 0:
                 return sp.Integer(1)
             return v.astype(object).prod(axis=None if axis is None else self._int(axis))
+        if name == "sort":
+            v = args[0] if isinstance(args[0], np.ndarray) else _obj_array(args[0])
+            if v.ndim != 1:
+                raise Undecided("np.sort of a matrix")
+            vals = list(v)
+            if all(isinstance(x, (int, float, np.integer, np.floating, sp.Integer, sp.Rational)) for x in vals):
+                return arr(sorted(vals))
+            if all(x in self.chain for x in vals):
+                return arr(sorted(vals, key=self.chain.index))
+            raise Undecided("np.sort of symbolic data (no ordering known)")
+        if name == "argsort":
+            v = args[0] if isinstance(args[0], np.ndarray) else _obj_array(args[0])
+            vals = list(v)
+            if v.ndim == 1 and all(x in self.chain for x in vals):
+                return np.array(sorted(range(len(vals)), key=lambda i_: self.chain.index(vals[i_])), dtype=int)
+            raise Undecided("np.argsort of symbolic data (no ordering known)")
         if name == "ravel":
             v = args[0] if isinstance(args[0], np.ndarray) else _obj_array(args[0])
             return v.ravel()
@@ -1085,13 +1177,50 @@ class Interp:
             v = args[0]
             if isinstance(v, np.ndarray) and v.dtype == bool:
                 return bool(getattr(np, name)(v))
-            raise Undecided(f"np.{name} of symbolic data")
+            v = v if isinstance(v, np.ndarray) else _obj_array(v)
+            flags = []
+            for x in v.flatten():
+                if isinstance(x, (int, float, np.integer, np.floating)) and not isinstance(x, bool):
+                    flags.append(x != 0)
+                elif isinstance(x, sp.Basic) and x.is_zero is not None:
+                    flags.append(not x.is_zero)        # exactly zero, or known to be non-zero
+                elif self.generic_functions and isinstance(x, sp.core.function.AppliedUndef):
+                    flags.append(True)                 # the value of a user function at a generic point
+                else:
+                    raise Undecided(f"np.{name} of symbolic data")
+            return any(flags) if name == "any" else all(flags)
         if name == "einsum":
             ops = [x if isinstance(x, np.ndarray) else _obj_array(x) for x in args[1:]]
             return np.einsum(args[0], *ops)
+        if name in ("isclose", "allclose"):
+            a, b = args[0], args[1]
+            def num(v):
+                return float(v) if isinstance(v, (int, float, np.integer, np.floating, sp.Integer, sp.Rational, sp.Float)) and not isinstance(v, bool) else None
+            if not isinstance(a, np.ndarray) and not isinstance(b, np.ndarray):
+                fa, fb = num(a), num(b)
+                if fa is not None and fb is not None:
+                    return bool(np.isclose(fa, fb))
+                # a generic (non-zero) quantity is not close to zero
+                for u, w in ((a, fb), (b, fa)):
+                    if w is not None and w == 0.0 and isinstance(u, sp.Basic) and u.free_symbols and u.free_symbols <= self.generic:
+                        return False
+            raise Undecided(f"np.{name} of symbolic data")
         if name in ("isinf", "isnan"):
             raise Undecided(f"np.{name} of symbolic data")
         raise Undecided(f"np.{name}")
+
+
+def module_globals_of(tree):
+    """name -> expression (or ClassDef) of the module-level assignments of a parsed module."""
+    out = {}
+    for st in tree.body:
+        if isinstance(st, ast.Assign) and len(st.targets) == 1 and isinstance(st.targets[0], ast.Name):
+            out[st.targets[0].id] = st.value
+        elif isinstance(st, ast.AnnAssign) and isinstance(st.target, ast.Name) and st.value is not None:
+            out[st.target.id] = st.value
+        elif isinstance(st, ast.ClassDef):
+            out[st.name] = st
+    return out
 
 
 def _is_generator(node):
